@@ -780,8 +780,9 @@ def case_shape_any(draw, max_extent=5):
 
 
 @st.composite
-def corpus_case(draw, max_extent=4, spacetime_ratio=2, static_only=True):
-    fam = draw(st.sampled_from(["plain", "plain", "shape", "shape", "occ", "flat", "affine", "affine", "cascade"]))
+def corpus_case(draw, max_extent=4, spacetime_ratio=2, static_only=True,
+                families=("plain", "plain", "shape", "shape", "occ", "flat", "affine", "affine", "cascade")):
+    fam = draw(st.sampled_from(list(families)))
     if fam == "plain":
         c = draw(case_of(spec_plain(), max_extent=max_extent))
     elif fam == "shape":
